@@ -1283,6 +1283,9 @@ def check_massless_rest_frame(ctx: Check, tree: Tree) -> None:
 
 def run(ctx: Check, tree: Tree) -> None:
     ctx.decided += [
+        'R-WIRING (bound symbol): the outer helicity symbol handed to the helicity rotations and to the Wigner rotation is create_spin_projection_symbol(state) on every reaching definition',
+        "R-RESTFRAME: the path that formulates Wigner angles (boost into the rotated state's rest frame) tests the particle's mass",
+        'R-FULLRANGE: every summation pool of the alignment rotations is the complete range -s..s',
         "no `.remove(x)` reachable in the package can raise: each is dominated by a membership test, inside a handler, or covered by a recorded structural invariant (R-GUARD)",
         "the PoolSum of a helicity/Wigner rotation ranges over create_spin_range(s) of the same s that is j of its Wigner-D, and every caller passes spin and masslessness of the rotated state (R-WIRING)",
         "create_spin_range loops from -s in steps of +1 while <= s (R-RANGE)",
